@@ -3,12 +3,11 @@
 From EV Require Import Base.Str Base.PyVal Model.Tokenize Model.Resolve Proofs.ResolveSpec Proofs.ResolveProofs.
 
 (* what extraction guarantees about a citation: case citations carry a page key and a reporter
-   (guessed edition or reporter group); a page that str.isdigit() accepts is accepted by int() *)
+   (guessed edition or reporter group) *)
 Definition cit_wf (D : dtables) (c : cit) : Prop :=
-  ((c_cls c = FullCase \/ c_cls c = ShortCase) ->
+  (c_cls c = FullCase \/ c_cls c = ShortCase) ->
      (exists v, glookup k_page (c_groups c) = Some v) /\
-     (c_guess c <> None \/ exists v, glookup k_reporter (c_groups c) = Some v)) /\
-  (forall p, gget k_page (c_groups c) = Some p -> str_isdigit D p = true -> int_of D p <> None).
+     (c_guess c <> None \/ exists v, glookup k_reporter (c_groups c) = Some v).
 
 (* the digit table is sane: every Nd range is a range (lo <= hi) *)
 Definition dt_ok (D : dtables) : Prop := True.
@@ -63,21 +62,20 @@ Proof.
   intros E; injection E as <-. split; [discriminate|exact Hall].
 Qed.
 
+(* as repaired, the pin check cannot raise *)
 Lemma has_invalid_pin_total D mx full idc :
-  (forall p, gget k_page (c_groups full) = Some p -> str_isdigit D p = true -> int_of D p <> None) ->
   exists b, has_invalid_pin D mx full idc = Ok b.
 Proof.
-  intros Hpg. unfold has_invalid_pin.
+  unfold has_invalid_pin.
   destruct (cls_eqb (c_cls full) FullCase &&
             match gget k_page (c_groups full) with None => true | Some _ => false end); [eauto|].
   destruct (negb (truthy_s (c_pin idc))); [eauto|].
-  destruct (gget k_page (c_groups full)) as [pg|] eqn:Eg.
-  - destruct (str_isdigit D pg) eqn:Ed; cbn [negb]; [|eauto].
-    destruct (int_of D pg) as [page|] eqn:Ei; [|exfalso; exact (Hpg pg eq_refl Ed Ei)].
-    destruct (pin_number D match c_pin idc with Some p => p | None => [] end) as [ds|] eqn:Ep; [|eauto].
-    apply pin_number_spec in Ep. destruct Ep as [Hne Hall].
-    destruct (int_of_some D ds Hne Hall) as [n En]. rewrite En. eauto.
-  - cbn [str_isdigit negb]. eauto.
+  destruct (negb (str_isdigit D match gget k_page (c_groups full) with Some p => p | None => [] end));
+    [eauto|].
+  destruct (pin_number D match c_pin idc with Some p => p | None => [] end) as [ds|]; [|eauto].
+  destruct (py_int D match gget k_page (c_groups full) with Some p => p | None => [] end) as [page|];
+    [|eauto].
+  destruct (py_int D ds) as [pin|]; eauto.
 Qed.
 
 (* ================================================================== *)
@@ -110,9 +108,9 @@ Qed.
 
 Lemma key_of_ok D c : cit_wf D c -> exists k, key_of c = Ok k.
 Proof.
-  intros [Hcase _]. unfold key_of. destruct (c_cls c) eqn:Ec; try (eexists; reflexivity).
-  - destruct (Hcase (or_introl eq_refl)) as [Hp Hr]. apply case_key_ok; assumption.
-  - destruct (Hcase (or_intror eq_refl)) as [Hp Hr]. apply case_key_ok; assumption.
+  intros Hcase. unfold key_of. destruct (c_cls c) eqn:Ec; try (eexists; reflexivity).
+  - destruct (Hcase (or_introl Ec)) as [Hp Hr]. apply case_key_ok; assumption.
+  - destruct (Hcase (or_intror Ec)) as [Hp Hr]. apply case_key_ok; assumption.
 Qed.
 
 Lemma short_finish_ok c K : exists r, short_finish c K = Ok r.
@@ -186,8 +184,7 @@ Proof.
   apply group_of_in in Eg.
   destruct (inv_groups _ _ HI _ _ Eg) as [h [t [-> [_ [_ [_ Hsub]]]]]].
   assert (Hin : In h p) by (eapply sublist_In; [exact Hsub|left; reflexivity]).
-  destruct (Hwf h Hin) as [_ Hpg].
-  destruct (has_invalid_pin_total D mx h c Hpg) as [b Eb]. rewrite Eb. cbn [bind]. eauto.
+  destruct (has_invalid_pin_total D mx h c) as [b Eb]. rewrite Eb. cbn [bind]. eauto.
 Qed.
 
 Lemma resolver_total p s c :
@@ -199,12 +196,12 @@ Proof.
   { destruct (key_of_ok D c Hc) as [k Ek]. rewrite Ek. cbn [bind]. eauto. }
   destruct (c_cls c) eqn:Ec; try exact Hfull; try (eexists; reflexivity).
   - (* short case *)
-    destruct Hc as [Hcase _]. destruct (Hcase (or_intror Ec)) as [_ Hr].
+    destruct (Hc (or_intror Ec)) as [_ Hr].
     destruct (corrected_reporter_ok c Hr) as [rc Erc].
     assert (Hgo : exists r, resolve_short c (fulls s) = Ok r).
     { rewrite resolve_short_eq. apply (short_go_total c rc Erc).
       intros f k Hin Hcls. rewrite (inv_fulls _ _ HI) in Hin. apply fulls_of_in in Hin.
-      destruct (Hwf f Hin) as [Hfc _]. apply cls_eqb_eq in Hcls.
+      pose proof (Hwf f Hin) as Hfc. apply cls_eqb_eq in Hcls.
       destruct (Hfc (or_introl Hcls)) as [_ Hfr]. apply corrected_reporter_ok. exact Hfr. }
     destruct Hgo as [r Er]. rewrite Er. cbn [bind]. eauto.
   - (* id *)
